@@ -160,6 +160,20 @@ CHECKS = {
         "is not compared after a restart (hidden user values are not persisted by design). One protocol version per session. <=20 requests.",
         "DESIGN.md 3/C14",
     ),
+    "C15": (
+        "exploration",
+        "structured fuzzing of the request channel with a metamorphic oracle: the session with every offending part removed (Hypothesis)",
+        "Generated sessions interleave valid requests with non-JSON lines, wrong / missing versions, wrong container types, values of the "
+        "wrong JSON type per option type, out-of-range numbers, unknown options and menu ids, unreadable / unwritable paths. The in-process "
+        "server must return normally, write exactly one JSON object line per input line and nothing else to standard output (the library's "
+        "real logger and default verbosity are active), and behave - replies to unaffected requests, final full state, bytes of every saved "
+        "file - exactly like the session without the offending parts; a failing case is bisected to the single responsible line, whose "
+        "shape names the finding.",
+        "Trusted: the per-type definition of 'wrong JSON type' in vk/props/c15.py; acceptability of a value (visibility, active range) is "
+        "judged against the live configuration right before a single-key request. Valid JSON that is not an object is outside the domain. "
+        "The subprocess / fd-1 variant is not part of the registered run.",
+        "DESIGN.md 3/C15",
+    ),
 }
 
 NOT_YET = {}
